@@ -145,6 +145,10 @@ pub fn main() -> i32 {
         "replay" => cmd_replay(&args),
         "selftest" => cmd_selftest(&args),
         "t7child" => Ok(crate::t7::child_main(&args)),
+        "t19reader" => {
+            crate::t19::reader_main(args.get(2).map(|s| s.as_str()).unwrap_or(""));
+            Ok(0)
+        }
         other => Err(SimError::Harness(format!("unknown command {other}"))),
     };
     match res {
@@ -194,6 +198,10 @@ pub fn run_one(tier: &str, check: &str, seed: u64, tmp: &Path, log: Option<&mut 
         "t4" => {
             let evs = crate::t4::generate_for(seed, check);
             with_runtime(crate::t4::run_events(seed, &evs, tmp, "g"))
+        }
+        "t19" => {
+            let evs = crate::t19::generate(seed);
+            with_runtime(crate::t19::run_events(seed, &evs, tmp, "g"))
         }
         "t17" => {
             let (cfg, reqs) = crate::t17::generate(seed);
@@ -246,6 +254,13 @@ pub fn run_list(
                 .map(|e| serde_json::from_value(e.clone()))
                 .collect::<Result<_, _>>()?;
             with_runtime(crate::t4::run_events(seed, &evs, tmp, tag))
+        }
+        "t19" => {
+            let evs: Vec<crate::t19::Ev> = events
+                .iter()
+                .map(|e| serde_json::from_value(e.clone()))
+                .collect::<Result<_, _>>()?;
+            with_runtime(crate::t19::run_events(seed, &evs, tmp, tag))
         }
         "t17" => {
             let cfg: crate::t17::Cfg = serde_json::from_value(config.clone())?;
